@@ -164,3 +164,161 @@ Proof.
   apply N.le_trans with (256 ^ 4); [change (256 ^ 4) with 4294967296; lia|].
   apply N.le_trans with (256 ^ (k - 1)); [|assumption]. apply N.pow_le_mono_r; lia.
 Qed.
+
+(* ------------------------------------------------------------------ decodeBigInt *)
+Lemma dec_big_complete c bs n r :
+  compact_decode bs = Some (n, r) -> succeeds (dec_big c bs) (n, r).
+Proof.
+  intros D. unfold compact_decode in D. destruct bs as [|b0 t]; [discriminate|].
+  unfold dec_big. eapply succeeds_bind; [apply read_byte_app|]. cbv beta iota zeta.
+  pose proof (b2n_lt b0) as B0. set (p := b2n b0) in *. rewrite !shiftr2, land3.
+  destruct (N.eqb_spec (p mod 4) 0) as [M0|M0].
+  { injection D as <- <-. apply succeeds_ret. }
+  destruct (N.eqb_spec (p mod 4) 1) as [M1|M1].
+  { destruct (take 1 t) as [[x r']|] eqn:T; [|discriminate].
+    pose proof (take_spec _ _ _ _ T) as [-> L]. destruct x as [|b1 [|? ?]]; try discriminate L.
+    rewrite le_val_single in D.
+    eapply succeeds_bind; [apply read_byte_app|]. cbv beta iota zeta. rewrite shiftr2.
+    remember ((p + 256 * b2n b1) / 4) as v eqn:Ev.
+    destruct (N.leb_spec 64 v) as [G1|G1]; [|discriminate]. injection D as <- <-.
+    destruct (N.leb_spec v 63); [lia|]. rewrite andb_false_r. apply succeeds_ret. }
+  destruct (N.eqb_spec (p mod 4) 2) as [M2|M2].
+  { destruct (take 3 t) as [[x r']|] eqn:T; [|discriminate].
+    eapply succeeds_bind; [apply read_of_take; [lia|exact T]|]. cbv beta iota zeta. rewrite shiftr2.
+    remember ((p + 256 * le_val x) / 4) as v eqn:Ev.
+    destruct (N.leb_spec 16384 v) as [G1|G1]; [|discriminate]. injection D as <- <-.
+    destruct (N.leb_spec v 16383); [lia|]. rewrite andb_false_r. apply succeeds_ret. }
+  remember (p / 4 + 4) as k eqn:Ek.
+  destruct (take (N.to_nat k) t) as [[x r']|] eqn:T; [|discriminate].
+  pose proof (take_spec _ _ _ _ T) as [_ L].
+  eapply succeeds_bind; [apply read_of_take; [lia|exact T]|]. cbv beta iota zeta.
+  rewrite be_val_rev. remember (le_val x) as v eqn:Ev.
+  destruct (N.eqb_spec (byte_len v) k) as [K|K]; [|discriminate].
+  destruct (N.leb_spec 1073741824 v) as [G1|G1]; [|discriminate].
+  cbn [andb] in D. injection D as <- <-.
+  assert (TN : top_nonzero x = true).
+  { apply (top_nonzero_spec x (N.to_nat k)); [exact L|lia|]. rewrite <- Ev, N2Nat.id. exact K. }
+  rewrite TN. cbn [negb orb]. destruct (N.leb_spec v 1073741823); [lia|].
+  rewrite andb_false_r. apply succeeds_ret.
+Qed.
+
+Lemma dec_big_sound c bs m n r m' :
+  fix_read c = true -> fix_big c = true -> dec_big c bs m = (Ok (n, r), m') ->
+  compact_decode bs = Some (n, r).
+Proof.
+  intros F FB H. unfold dec_big in H.
+  apply bind_ok in H as ([b0 t] & m1 & R0 & H). apply read_byte_ok in R0 as ->.
+  cbv beta iota zeta in H. unfold compact_decode.
+  pose proof (b2n_lt b0) as B0. set (p := b2n b0) in *. rewrite !shiftr2, land3 in H. rewrite FB in H.
+  cbn [andb] in H.
+  destruct (N.eqb_spec (p mod 4) 0) as [M0|M0].
+  { apply ret_ok in H as [H _]. injection H as <- <-. reflexivity. }
+  destruct (N.eqb_spec (p mod 4) 1) as [M1|M1].
+  { apply bind_ok in H as ([b1 r'] & m2 & R1 & H). apply read_byte_ok in R1 as ->.
+    cbv beta iota zeta in H. rewrite shiftr2 in H.
+    change (take 1 (b1 :: r')) with (take (length [b1]) ([b1] ++ r')). rewrite take_app, le_val_single.
+    remember ((p + 256 * b2n b1) / 4) as v eqn:Ev.
+    destruct (N.leb_spec v 63) as [A|A]; [discriminate|].
+    apply ret_ok in H as [H _]. injection H as <- <-.
+    destruct (N.leb_spec 64 v); [reflexivity|lia]. }
+  destruct (N.eqb_spec (p mod 4) 2) as [M2|M2].
+  { apply bind_ok in H as ([x r'] & m2 & R1 & H). apply (read_ok c _ _ _ _ _ _ F) in R1 as [-> L].
+    cbv beta iota zeta in H. rewrite shiftr2 in H. rewrite <- L, take_app.
+    remember ((p + 256 * le_val x) / 4) as v eqn:Ev.
+    destruct (N.leb_spec v 16383) as [A|A]; [discriminate|].
+    apply ret_ok in H as [H _]. injection H as <- <-.
+    destruct (N.leb_spec 16384 v); [reflexivity|lia]. }
+  remember (p / 4 + 4) as k eqn:Ek.
+  apply bind_ok in H as ([x r'] & m2 & R1 & H). apply (read_ok c _ _ _ _ _ _ F) in R1 as [-> L].
+  cbv beta iota zeta in H. rewrite <- L, take_app. rewrite be_val_rev in H.
+  remember (le_val x) as v eqn:Ev.
+  destruct (top_nonzero x) eqn:TN; [|discriminate]. cbn [negb orb] in H.
+  destruct (N.leb_spec v 1073741823) as [A|A]; [discriminate|].
+  apply ret_ok in H as [H _]. injection H as <- <-.
+  apply (top_nonzero_spec x (N.to_nat k)) in TN; [|exact L|lia]. rewrite <- Ev, N2Nat.id in TN.
+  rewrite TN, N.eqb_refl. destruct (N.leb_spec 1073741824 v); [reflexivity|lia].
+Qed.
+
+(* ------------------------------------------------------------------ decodeBytes *)
+Lemma read_chunks_complete fuel len rd avail :
+  rd <= len -> len <= avail ->
+  (rd = len \/ (1 <= rd /\ len < rd * 2 ^ N.of_nat fuel)) ->
+  succeeds (read_chunks fuel len rd avail) tt.
+Proof.
+  revert rd; induction fuel as [|f IH]; intros rd L A G.
+  - cbn [read_chunks]. destruct (N.eqb_spec rd len) as [E|E]; [apply succeeds_ret|].
+    exfalso. destruct G as [G|[G1 G2]]; [contradiction|]. change (2 ^ N.of_nat 0) with 1 in G2. lia.
+  - cbn [read_chunks]. destruct (N.eqb_spec rd len) as [E|E]; [apply succeeds_ret|].
+    destruct G as [G|[G1 G2]]; [contradiction|].
+    apply succeeds_tick_seq.
+    destruct (N.ltb_spec avail (rd + N.min (len - rd) rd)); [lia|].
+    apply IH; [lia|lia|].
+    destruct (N.le_gt_cases rd (len - rd)) as [C|C].
+    + right. rewrite N.min_r by assumption. split; [lia|].
+      rewrite Nat2N.inj_succ, N.pow_succ_r' in G2. lia.
+    + left. rewrite N.min_l by lia. lia.
+Qed.
+
+Lemma read_chunks_sound fuel len rd avail m m' :
+  read_chunks fuel len rd avail m = (Ok tt, m') -> rd <= len -> rd <= avail -> len <= avail.
+Proof.
+  revert rd m; induction fuel as [|f IH]; intros rd m H L A; cbn [read_chunks] in H.
+  - destruct (N.eqb_spec rd len) as [E|E]; [lia|discriminate].
+  - destruct (N.eqb_spec rd len) as [E|E]; [lia|].
+    apply tick_seq_ok in H.
+    destruct (N.ltb_spec avail (rd + N.min (len - rd) rd)) as [C|C]; [discriminate|].
+    apply IH in H; lia.
+Qed.
+
+Lemma firstn_app_exact {A} (l r : list A) : firstn (length l) (l ++ r) = l.
+Proof. rewrite firstn_app, Nat.sub_diag, firstn_O, app_nil_r. apply firstn_all. Qed.
+Lemma skipn_app_exact {A} (l r : list A) : skipn (length l) (l ++ r) = r.
+Proof. rewrite skipn_app, Nat.sub_diag, skipn_all. reflexivity. Qed.
+
+Lemma uint57_small n : n < 4294967296 -> uint57 n = false.
+Proof. intro H. unfold uint57. destruct (N.leb_spec 4294967296 n); [lia|reflexivity]. Qed.
+
+Lemma dec_bytes_complete c (l r : list byte) :
+  N.of_nat (length l) < 2 ^ 32 ->
+  succeeds (dec_bytes c (compact_encode (N.of_nat (length l)) ++ l ++ r)) (l, r).
+Proof.
+  intro H. change (2 ^ 32) with 4294967296 in H. unfold dec_bytes.
+  eapply succeeds_bind.
+  { apply dec_uint_complete.
+    - apply compact_decode_encode. apply N.lt_trans with 4294967296; [assumption|reflexivity].
+    - apply N.lt_trans with 4294967296; [assumption|reflexivity].
+    - right. now apply uint57_small. }
+  cbv beta iota. set (len := N.of_nat (length l)) in *.
+  destruct (N.ltb_spec 4294967295 len); [lia|].
+  assert (NL : N.to_nat len = length l) by (unfold len; lia).
+  destruct (fix_bytes c).
+  - apply succeeds_tick_seq.
+    assert (AV : len <= N.of_nat (length (l ++ r))) by (rewrite app_length; lia).
+    destruct (N.ltb_spec (N.of_nat (length (l ++ r))) (N.min len max_prealloc)); [lia|].
+    eapply succeeds_bind.
+    + apply read_chunks_complete; [lia|assumption|].
+      unfold max_prealloc. destruct (N.le_gt_cases len 4096) as [C|C].
+      * left. lia.
+      * right. rewrite N.min_r by lia. split; [lia|]. change (2 ^ N.of_nat 64) with 18446744073709551616. lia.
+    + rewrite NL, firstn_app_exact, skipn_app_exact. apply succeeds_ret.
+  - apply succeeds_tick_seq. destruct (N.eqb_spec len 0) as [E|E].
+    + assert (l = []) by (destruct l; [reflexivity|cbn in len; lia]). subst l. apply succeeds_ret.
+    + apply succeeds_lift. apply read_short_of_take; [lia|]. rewrite NL. apply take_app.
+Qed.
+
+Lemma dec_bytes_sound c bs m l r m' :
+  fix_read c = true -> fix_bytes c = true -> dec_bytes c bs m = (Ok (l, r), m') ->
+  bs = compact_encode (N.of_nat (length l)) ++ l ++ r /\ N.of_nat (length l) < 2 ^ 32.
+Proof.
+  intros F FB H. unfold dec_bytes in H.
+  apply bind_ok in H as ([len r0] & m1 & U & H). apply (dec_uint_sound c _ _ _ _ _ F) in U as [U _].
+  apply compact_encode_decode in U as [-> _]. cbv beta iota in H.
+  destruct (N.ltb_spec 4294967295 len) as [A|A]; [discriminate|]. rewrite FB in H.
+  apply tick_seq_ok in H.
+  destruct (N.ltb_spec (N.of_nat (length r0)) (N.min len max_prealloc)) as [B|B]; [discriminate|].
+  apply bind_ok in H as ([] & m2 & CH & H).
+  apply read_chunks_sound in CH; [|lia|lia].
+  apply ret_ok in H as [H _]. injection H as <- <-.
+  assert (LL : length (firstn (N.to_nat len) r0) = N.to_nat len) by (apply firstn_length_le; lia).
+  rewrite LL, N2Nat.id, firstn_skipn. split; [reflexivity|]. change (2 ^ 32) with 4294967296. lia.
+Qed.
